@@ -4,5 +4,6 @@ CONSTANTS
   Tier = "thorough"
 INIT Init
 NEXT Next
+INVARIANT RoundTrip
 INVARIANT Emit
 CHECK_DEADLOCK FALSE
